@@ -9,7 +9,7 @@ wt="/tmp/mut/$name"
 mkdir -p /tmp/mut
 git -C /repo worktree remove --force "$wt" >/dev/null 2>&1
 git -C /repo worktree add -q --detach "$wt" HEAD || exit 3
-if ! git -C "$wt" apply "$patch"; then echo "PATCH DOES NOT APPLY"; git -C /repo worktree remove --force "$wt"; exit 3; fi
+if ! { git -C "$wt" apply "$patch" 2>/dev/null || (cd "$wt" && patch -p1 -F3 -s --no-backup-if-mismatch < "$patch"); }; then echo "PATCH DOES NOT APPLY"; git -C /repo worktree remove --force "$wt"; exit 3; fi
 cd /verif
 for prop in "$@"; do
   out=$(VERIF_REPO="$wt" ./check "$prop" "$tier" 2>&1)
